@@ -122,6 +122,7 @@ def _run(sc, sink, outdir):
             for _ in range(sc["lateR"]):
                 opt.set_results_callback(make_res_cb())
         ScriptPlugin.reset([], on_request=lambda number: ev("Opt", n=number))
+        fds_before = len(os.listdir("/proc/self/fd"))
         try:
             opt.run()
             sink.collect()
@@ -133,7 +134,7 @@ def _run(sc, sink, outdir):
         ok = (res is None and opt.variables is None) or (
             res is not None and opt.variables is not None and np.array_equal(opt.variables, res.evaluations.variables)
             and int(round(float(opt.variables[0]))) == best)
-        ev("Done", n=run, obj=best, s=exit_name(opt.exit_code), vars=int(ok))
+        ev("Done", n=run, obj=best, s=exit_name(opt.exit_code), vars=int(ok), open=len(os.listdir("/proc/self/fd")) - fds_before)
     ScriptPlugin.on_request = None
     return log
 
